@@ -519,13 +519,21 @@ def find_commit_graph_file(git_dir: str | bytes) -> bytes | None:
 
 
 def generate_commit_graph(
-    object_store: "BaseObjectStore", commit_ids: Sequence[ObjectID]
+    object_store: "BaseObjectStore",
+    commit_ids: Sequence[ObjectID],
+    *,
+    closed: bool = True,
 ) -> CommitGraph:
     """Generate a commit graph from a set of commits.
 
     Args:
         object_store: Object store to retrieve commits from
         commit_ids: List of commit IDs to include in the graph
+        closed: If True (the default), commits whose parents are not all
+            included are left out, so that every commit in the graph has all
+            of its parents there. If False, exactly the given commits are
+            included; a parent outside the graph cannot be named by the
+            format and such a commit reads back with fewer parents.
 
     Returns:
         CommitGraph object containing the specified commits
@@ -574,7 +582,8 @@ def generate_commit_graph(
     open_commits = [
         commit_id
         for commit_id, commit_obj in commit_map.items()
-        if any(parent_id not in commit_map for parent_id in commit_obj.parents)
+        if closed
+        and any(parent_id not in commit_map for parent_id in commit_obj.parents)
     ]
     while open_commits:
         commit_id = open_commits.pop()
